@@ -465,3 +465,17 @@ def candidates(draw, univ, foreign=None):
     if foreign:
         els = els + list(foreign)
     return draw(weak_order_of(els))
+
+
+def large_datasets():
+    """datasets well beyond the sizes of the generic checks (size-dependent code paths, large scores): 'election'
+    (few ballots, multiplicities in the hundreds), 'large_uniform' (20-30 strict orders of 18-30 elements) and large
+    incomplete datasets with ties"""
+    return st.one_of(
+        datasets(max_n=8, min_n=5, max_m=4, shapes=["election"], kinds=("dense", "str"), allow_empty_rankings=False,
+                 allow_duplicates=False),
+        datasets(max_n=30, min_n=18, max_m=4, shapes=["large_uniform"], kinds=("dense", "mult8", "str"),
+                 allow_empty_rankings=False, allow_duplicates=False),
+        datasets(max_n=26, min_n=14, max_m=16, shapes=["incomplete", "near_unanimous_incomplete", "sparse_block",
+                                                       "complete", "cyclic_incomplete"],
+                 kinds=("dense", "negs", "str")))
